@@ -21,6 +21,8 @@ import DracoProofs.EbAlloc
                                         4 259 840, K = 2048, or it is one of the four sites of `ebX`
     `alloc_classified`                  the complete decoder `decodeGeometry` with both real bodies: linear bound,
                                         or `kdX` (the known kd-tree finding), or `ebX`
+    `decode_consumes_prefix`            (C02, purity) the complete decoder with both real bodies only advances in the
+                                        input: what is left is a suffix of the caller's bytes
 
   `ebX`: mesh_traversal_sequencer.point_ids, attribute.indices_map, attribute.Reset,
   integer_decoder.portable_attribute — sized by the number of vertices of the (attribute) corner table / the
@@ -193,6 +195,59 @@ theorem alloc_classified (opts : DecOpts) (bs : Bytes) (hb : IsBytes bs) :
         cases r with
         | none => exact ((hbody.1 s' hr).allocs e he).imp id Or.inr
         | some a => exact ((hbody.2 a s' hr).1.allocs e he).imp id Or.inr
+
+/-- **C02 purity / forward-only reads for the complete decoder** (sequential, kd-tree, Edgebreaker): whatever the
+    bytes, what is left of the input after the run is a suffix of the caller's bytes -/
+theorem decode_consumes_prefix (opts : DecOpts) (bs : Bytes) (hb : IsBytes bs) :
+    (decodeGeometry opts { rest := bs }).2.rest <:+ bs := by
+  have h0 : Inv bs 0 { rest := bs } := ⟨List.suffix_refl _, Nat.le_refl _, by simp⟩
+  have hstub := tr_decodeStreamWith hb ebStub kdStub opts (tr_pure trivial) (tr_pure trivial) _ h0
+  unfold decodeGeometry
+  rw [decodeStreamWith_eq] at hstub ⊢
+  simp only [bind] at hstub ⊢
+  cases hf : streamFront { rest := bs } with
+  | mk fo s1 =>
+    simp only [DecM.andThen, hf] at hstub ⊢
+    cases fo with
+    | none =>
+      simp only at hstub ⊢
+      exact (hstub.1 s1 rfl).suf
+    | some fg =>
+      simp only at hstub ⊢
+      cases fg with
+      | seq fr =>
+        simp only [finishStream] at hstub ⊢
+        rcases hr : finishGeom opts fr s1 with ⟨r, s'⟩
+        cases r with
+        | none => exact (hstub.1 s' hr).suf
+        | some a => exact (hstub.2 a s' hr).1.suf
+      | kd md =>
+        have hs1 : Inv bs 0 s1 := by
+          have := hstub.2 ⟨{ isMesh := false, numPoints := 0, faces := [], atts := [] }, md⟩ s1 rfl
+          exact this.1
+        have hbody := (trc_bind (trc_decodeKdGeometry hb opts)
+          (fun g _ => trc_weaken (trc_pure (F := fun _ => True) (a := (⟨g, md⟩ : DecodeResult)) trivial)
+            (fun _ _ => Nat.le_refl _) (fun _ h => h))) s1 hs1.toC
+        simp only [finishStream]
+        rcases hr : (do let g ← Kd.decodeKdGeometry opts; pure (⟨g, md⟩ : DecodeResult)) s1 with ⟨r, s'⟩
+        rw [hr]
+        cases r with
+        | none => exact (hbody.1 s' hr).suf
+        | some a => exact (hbody.2 a s' hr).1.suf
+      | eb md =>
+        have hs1 : Inv bs 0 s1 := by
+          have := hstub.2 ⟨{ isMesh := true, numPoints := 0, faces := [], atts := [] }, md⟩ s1 rfl
+          exact this.1
+        have hbody := (trc_bind (eb_body_alloc_invariant opts bs hb)
+          (fun g _ => trc_weaken (trc_pure (F := fun _ => True) (a := (⟨g, md⟩ : DecodeResult)) trivial)
+            (fun _ _ => Nat.le_refl _) (fun _ h => h))) s1 hs1.toC
+        simp only [finishStream]
+        rcases hr : (do let g ← Eb.decodeEdgebreaker opts; pure (⟨g, md⟩ : DecodeResult)) s1 with ⟨r, s'⟩
+        rw [hr]
+        cases r with
+        | none => exact (hbody.1 s' hr).suf
+        | some a => exact (hbody.2 a s' hr).1.suf
+
 
 /-! ### non-vacuity -/
 
